@@ -31,6 +31,7 @@ def run(ctx):
               "distinct = distinct case lines. Library outcomes (xpath value kind, json/jsonpath success) are inputs of the "
               "model and are taken from the observation; lower/upper/replace with an empty pattern are generated on ASCII only"),
         key_fn=key_fn,
+        translators=[("gofn-mp", "GoFnMpGen.v")], bridge_files=["Gen/GoFnMp_bridge.v"],
         trusted=[
             "extraction: ExtrOcamlBasic only; OCaml driver ocaml/C19/main.ml (incl. its copy of str.ParseStringFunc for modifier text) + ocaml/common/conv.ml",
             "correspondence harness harness/cmd/hC19 (real postprocessors under recover; scripted TCP target; real config decoder, "
